@@ -285,6 +285,11 @@ theorem pool_at_rest_main {cfg : Cfg} (hn : 1 ≤ cfg.nworkers) (hj : JobsOk cfg
 
 
 
+/-- **`idle()` counts the workers waiting for jobs**: in every reachable state `idle_` equals the number of
+    workers between `++idle_` and `--idle_` (evaluating the wait predicate, about to wait, waiting, or just woken). -/
+theorem pool_idle_count {cfg : Cfg} {s : State} (h : Reachable cfg s) : s.idle = s.thr.countP inIdle :=
+  reachable_idle h
+
 /-! ## Non-vacuity
 
 `exCfg`: one worker, one job code with an empty body, two clients calling `loop_until_empty()`, the main thread
